@@ -279,6 +279,15 @@ func c02Gen(r *Rand, tier string, i int) Scenario {
 		}
 		ncmd = 1
 	}
+	if r.Bool(0.04) {
+		// very long lines (beyond 64 KiB, below the default MaxLineLength of
+		// 1 MiB): a line is handed to the transport in several pieces
+		sc.Kind, sc.Before, sc.After, sc.Max, sc.KeepEvery = "cat", 0, 0, 0, 1
+		sc.Files = []C02File{{Dir: "d0", Lines: r.Range(2, 6), Pad: PickOf(r, 65400+r.Intn(300), 70000, 140000), NoFinalNL: r.Bool(0.3)}}
+		sc.Commands = []string{sc.Files[0].name(0)}
+		sc.Stalls = nil
+		ncmd = 1
+	}
 	if ncmd > 1 && r.Bool(0.4) {
 		sc.Stalls = append(sc.Stalls, StallSpec{Name: "command.delay", Site: siteSendCommand, Suffix: "/select", From: 1, To: -1,
 			DurMs: PickOf(r, 1, 50, 500)})
